@@ -82,6 +82,7 @@ e4db022 C20 C20.pool
 6f1dab0 C03 C03.headercopy
 3f8cad3 C01 C01.unitpair
 cd01177 C01 C01.unitpair
+15c4f0f C18 C18.signed
 LIST
 git -C /repo worktree remove --force $WT
 rm -rf /tmp/fixcheck-ev
